@@ -211,6 +211,7 @@ impl Known {
 // ---------------------------------------------------------------- watchdog
 
 struct Slot {
+    note: Option<String>,
     start: Option<Instant>,
     sub: &'static str,
     tape: Option<Vec<u8>>,
@@ -220,9 +221,23 @@ struct Slot {
 
 static SLOTS: Mutex<Vec<Arc<Mutex<Slot>>>> = Mutex::new(Vec::new());
 
+thread_local! {
+    static CURRENT: RefCell<Option<Arc<Mutex<Slot>>>> = RefCell::new(None);
+}
+
+/// Lets a check describe the case it is about to execute, so that a wedge report shows it.
+pub fn note_case(s: &str) {
+    CURRENT.with(|c| {
+        if let Some(slot) = c.borrow().as_ref() {
+            slot.lock().unwrap().note = Some(s.to_string());
+        }
+    });
+}
+
 fn new_slot(sub: &'static str, limit: u64) -> Arc<Mutex<Slot>> {
-    let s = Arc::new(Mutex::new(Slot { start: None, sub, tape: None, item: None, limit }));
+    let s = Arc::new(Mutex::new(Slot { note: None, start: None, sub, tape: None, item: None, limit }));
     SLOTS.lock().unwrap().push(s.clone());
+    CURRENT.with(|c| *c.borrow_mut() = Some(s.clone()));
     s
 }
 
@@ -244,6 +259,9 @@ fn start_watchdog(root: String, property: &'static str, tier: String, seed: u64)
                     }
                     if let Some(i) = &g.item {
                         o["item"] = json!(i);
+                    }
+                    if let Some(n) = &g.note {
+                        o["case"] = json!(n);
                     }
                     let _ = std::fs::write(&path, serde_json::to_string_pretty(&o).unwrap());
                     println!("WEDGE property={} check={} no return within {} s, case saved to {}", property, g.sub, g.limit, path);
